@@ -9,6 +9,17 @@ NOTE = ("Trusted base: clang 14 front end + clang::CFG, tools/xzfacts.cc, sa/*.p
         "of the property is NOT decided (see DESIGN.md section 4).")
 
 CLAIMED = {
+ "C19": dict(
+  text="Structural clauses of xz naming/overwrite/metadata safety: the compress and decompress suffix tables agree (every "
+       "suffix added or refused when compressing is removed when decompressing, defaults map to the bare name, .txz/.tlz to "
+       ".tar), test_suffix/suffix_set guards, built-in suffixes before the custom one; finite-domain evaluation of "
+       "io_open_src_real for all 8 combinations of --stdout/--force/--keep: O_NOFOLLOW exactly when none is set, and every "
+       "success path passes the directory, regular-file, setuid/setgid, sticky and hard-link refusals that apply; exhaustive "
+       "evaluation of io_copy_attrs' two permission expressions over all 4096 mode values (never broader, no special bits); "
+       "owner->group->mode->timestamps from the source; --stdout/--test imply --keep; exit status mapping. Name invertibility "
+       "for all byte strings is NOT decided.",
+  technique="table joins, finite-domain abstract evaluation over option combinations and all mode values, edge-cut must-pass",
+  ref="4/C19"),
  "C18": dict(
   text="Structural clauses of tool/library agreement: write-before-fail on the finite-domain (ret-tracking) product graphs "
        "of xzdec's and lzmadec's uncompress() (both preprocessor variants analysed as separate targets) and xz's coder_normal; "
